@@ -34,6 +34,7 @@ ASSUMPTIONS = ["numpy/scipy linear algebra", "Fock-space ladder matrices and N/S
 SHARDS = {"quick": 4, "thorough": 16}
 EXHAUSTIVE = False
 
+QTOL = 1e-6
 TOL = 1e-9
 
 
@@ -335,7 +336,10 @@ def commute(ctx):
                 for name in names:
                     QO = qop_dense(dict(map_op(ops[name], enc, m, utd, **kw).terms), q)
                     d = maxabs(QO @ QH - QH @ QO)
-                    if d > TOL * hscale:
+                    # qubit level: the mappings compress coefficients below openfermion's 1e-8 threshold, so a commutator
+                    # residual of a few 1e-8 is truncation noise (seen in the thorough tier: 1.7e-8, 2.2e-8); a wrong
+                    # operator gives O(1e-2) or more.
+                    if d > QTOL * hscale:
                         raise Fail(f"[{name}, H] != 0 under {enc} up_then_down={utd} (max {d}) for {case['family']} q={case['q']} spin={case['spin']} "
                                    f"frozen={case['frozen']} uhf={case['uhf']}", sig=f"commute:{enc}:{name}")
         return n >= 2, labels
